@@ -291,6 +291,34 @@ def run_case(case, stats):
             if bad:
                 raise Violation("rows-differ", f"{bad}; result {res}; {ctx}", opts=label, final=final[0], moved=moved)
             stats.c["compared"] += 1
+        # histories: user code re-uses predicate objects.  After the join requests, the join's own predicate object is used
+        # in a selection on the same tree (when the tree alone has the columns), with backtracking towards S: whatever the
+        # joins did with the object, the selection must still mean the same thing.
+        if final[0] == "join" and final[3] is not None and not preprocess:
+            from vf.core.expr import cols_p
+
+            if cols_p(final[3]) <= set(schema(base, leaves)):
+                sel_node = ("sel", base, final[3])
+                truth_s = ev_multi(sel_node, leaves)
+                for o in (dict(preferred_engine=env.engines[S], backtrack=True, transfer=False), dict(preferred_engine=env.engines[S], backtrack=True, transfer=True)):
+                    label = "selection re-using the join's predicate object, " + " ".join(f"{k}={v}" for k, v in o.items() if k != "preferred_engine")
+                    try:
+                        res = issue(("sel", None, final[3]), root, None, env, o)
+                        got = execute_processed(env, make_processor(env).process(res))
+                    except (ColumnError, DatabaseError) as e:
+                        if isinstance(e, ColumnError):
+                            raise Violation("valid-op-rejected-with-ColumnError", f"{e}; {label}; {ctx0}", opts=label, final="sel-after-join", sig=exc_sig(e))
+                        continue
+                    except EngineError:
+                        continue
+                    except Exception as e:
+                        if is_order_loss(e):
+                            continue
+                        raise Violation("result-not-executable", f"{type(e).__name__}: {str(e)[:300]}; {label}; {ctx0}", sig=exc_sig(e), opts=label, final="sel-after-join")
+                    bad = compare(truth_s, got)
+                    if bad:
+                        raise Violation("rows-differ", f"{bad}; result {res}; {label}; {ctx0}", opts=label, final="sel-after-join")
+                    stats.c["sel-after-join:compared"] += 1
         # a user-defined operation (extension point: RowFilter subclass that keeps the base-class commute()) requested
         # with a preferred engine: it cannot be moved, so it must end up in the tree (or the call must raise EngineError)
         if not preprocess:
